@@ -136,23 +136,6 @@ def run_property(prop, tier, obligations, meta, seed=0):
             futs = [(ob, ex.submit(run_worker, ob, scratch)) for ob in order]
             for ob, fu in futs:
                 results.append((ob, fu.result()))
-        # one retry with a doubled budget for inconclusive obligations (DESIGN 1)
-        retry = [(i, ob) for i, (ob, r) in enumerate(results)
-                 if r["status"] == "INCONCLUSIVE" and ob.get("expect", "holds") == "holds"
-                 and "worker error" not in r.get("reason", "")]
-        if retry:
-            with ThreadPoolExecutor(max_workers=JOBS) as ex:
-                futs = []
-                for i, ob in retry:
-                    ob2 = dict(ob)
-                    ob2["budget_s"] = float(ob.get("budget_s", 120)) * 2
-                    ob2["per_path_s"] = float(ob.get("per_path_s", 30)) * 2
-                    futs.append((i, ob, ex.submit(run_worker, ob2, scratch)))
-                for i, ob, fu in futs:
-                    r2 = fu.result()
-                    r2["retried"] = True
-                    results[i] = (ob, r2)
-
         # native replays of all counterexample candidates, in parallel
         todo = []
         for ob, r in results:
@@ -165,6 +148,34 @@ def run_property(prop, tier, obligations, meta, seed=0):
                 futs = [(cex, ex.submit(replay_native, ob, cex, scratch)) for ob, cex in todo]
                 for cex, fu in futs:
                     cex["replay"] = fu.result()
+
+        # one retry with a doubled budget for inconclusive obligations (DESIGN 1)
+        retry = [(i, ob) for i, (ob, r) in enumerate(results)
+                 if r["status"] == "INCONCLUSIVE" and ob.get("expect", "holds") == "holds"
+                 and "worker error" not in r.get("reason", "")]
+        # ... unless a reproduced, unlisted violation already decides the run (exit 1 either way): then the budget
+        # overruns of the other obligations - typical for a broken tree - are reported as they are
+        decided = False
+        for ob, r in results:
+            if ob.get("expect", "holds") == "holds" and r["status"] == "CANDIDATE":
+                for cex in r["cex"]:
+                    rr = cex.get("replay") or ({"violated": True, "tag": cex.get("tag", ""), "detail": cex.get("detail", "")}
+                                               if (ob.get("engine") == "native" or cex.get("native")) else {})
+                    if rr.get("violated") and match_finding(findings, prop, ob["name"], rr.get("tag") or cex.get("tag", ""),
+                                                            rr.get("detail", "")) is None:
+                        decided = True
+        if retry and not decided:
+            with ThreadPoolExecutor(max_workers=JOBS) as ex:
+                futs = []
+                for i, ob in retry:
+                    ob2 = dict(ob)
+                    ob2["budget_s"] = float(ob.get("budget_s", 120)) * 2
+                    ob2["per_path_s"] = float(ob.get("per_path_s", 30)) * 2
+                    futs.append((i, ob, ex.submit(run_worker, ob2, scratch)))
+                for i, ob, fu in futs:
+                    r2 = fu.result()
+                    r2["retried"] = True
+                    results[i] = (ob, r2)
 
         violations, known, inconclusive = [], [], []
         twins_refuted = 0
